@@ -31,7 +31,11 @@ type Cfg struct {
 	RESP2            bool   `json:"resp2"` // AlwaysRESP2 + DisableCache: Pub/Sub goes over a second connection
 	NoAutoPipe       bool   `json:"noautopipe"`
 	SmallBuf         bool   `json:"smallbuf"` // 64 byte read buffer: replies cross many read boundaries
+	NoCache          bool   `json:"nocache"`  // DisableCache on a RESP3 connection: no client-side cache, tracking only when a caller turns it on by hand
 }
+
+// noCache: DoCache / DoMultiCache fall back to Do / DoMulti (plain wire form)
+func (c Cfg) noCache() bool { return c.RESP2 || c.NoCache }
 
 func (c Cfg) singleConn() bool { return c.Multiplex < 0 && !c.NoAutoPipe }
 
@@ -462,7 +466,11 @@ func newRun(cfg Cfg, mode string, seed int64, invalOn bool, rep *vh.Report) (*ru
 	r := &run{cfg: cfg, seed: seed, tr: &vh.Tracer{}, rep: rep, mode: mode, open: map[int]*call{}, invalOn: invalOn,
 		features: map[string]bool{}, gate: newGate()}
 	r.ctx, r.abort = context.WithCancel(context.Background())
-	r.log(E{Ev: "RESET", Kind: cfg.Name + "/" + mode, N: int(seed)})
+	name := cfg.Name
+	if cfg.NoCache {
+		name += "+nocache"
+	}
+	r.log(E{Ev: "RESET", Kind: name + "/" + mode, N: int(seed)})
 	r.log(E{Ev: "Start", Flag: invalOn})
 	r.srv = fakeredis.NewServer("s1", fakeredis.Options{})
 	r.srv.SetEventSink(r.sink)
@@ -489,7 +497,7 @@ func newRun(cfg Cfg, mode string, seed int64, invalOn bool, rep *vh.Report) (*ru
 		PipelineMultiplex:     cfg.Multiplex,
 		AlwaysPipelining:      cfg.AlwaysPipelining,
 		AlwaysRESP2:           cfg.RESP2,
-		DisableCache:          cfg.RESP2,
+		DisableCache:          cfg.noCache(),
 		DisableAutoPipelining: cfg.NoAutoPipe,
 		ConnWriteTimeout:      10 * time.Minute, // no background PING, no write deadline during a run
 		BlockingPoolSize:      8,
